@@ -19,7 +19,7 @@ ID = "C39"
 LEVEL = "model_checking"
 TECHNIQUE = "explicit-state BFS over read/write-attempt histories on the real EKO; invariant: archive hash unchanged, every write attempt raises"
 LEVEL_TEXT = (
-    "all histories up to the depth bound over 16 operations from 3 initial states are executed on the "
+    "all histories up to the depth bound over 21 operations from 3 initial states are executed on the "
     "real object; the archive's SHA-256 is compared after every step and after the session"
 )
 LEVEL_NOTE = "bounded depth (quick 3, thorough 5); one archive content; trusted: hashlib, the op classification (mutating / not)"
@@ -34,11 +34,14 @@ MUTATING = {
     "update",
     "load_recipes_evo",
     "load_recipes_match",
+    "load_recipes_known_evo",
+    "load_recipes_known_match",
+    "parts_set_known",
     "parts_set",
     "parts_matching_set",
     "setitem_operators",
 }
-OPS = sorted(MUTATING) + ["get", "list", "items", "unload", "del_operators", "dump", "close", "exit"]
+OPS = sorted(MUTATING) + ["get", "read_recipes", "read_part", "list", "items", "unload", "del_operators", "dump", "close", "exit"]
 INITS = ["ro_open", "closed_after_rw", "closed_after_ro"]
 
 
@@ -52,9 +55,14 @@ def _mk_archive(path):
 
     th, op = cards.build(dict(xgrid=[0.5, 1.0], mugrid=[[3.0, 4]]))
     a = np.arange(16, dtype=float).reshape(2, 2, 2, 2)
+    from eko.io.items import Evolution, Matching
+
     with EKO.create(path) as b:
         e = b.load_cards(th, op).build()
         e[EP0] = Operator(a, a * 0.01)
+        # recipes and a part that already exist in the archive (stores of *known* headers must raise as well)
+        e.load_recipes([Evolution(4.0, 9.0, 4), Matching(9.0, 5, False)])
+        e.parts[Evolution(4.0, 9.0, 4)] = Operator(a)
 
 
 def _apply(e, name):
@@ -76,6 +84,17 @@ def _apply(e, name):
             e.load_recipes([Evolution(1.0, 2.0, 4)])
         elif name == "load_recipes_match":
             e.load_recipes([Matching(4.0, 5, False)])
+        elif name == "load_recipes_known_evo":
+            e.load_recipes([Evolution(4.0, 9.0, 4)])
+        elif name == "load_recipes_known_match":
+            e.load_recipes([Matching(9.0, 5, False)])
+        elif name == "parts_set_known":
+            e.parts[Evolution(4.0, 9.0, 4)] = Operator(a)
+        elif name == "read_recipes":
+            _ = e.recipes[Evolution(4.0, 9.0, 4)]
+            _ = e.recipes_matching[Matching(9.0, 5, False)]
+        elif name == "read_part":
+            _ = e.parts[Evolution(4.0, 9.0, 4)]
         elif name == "parts_set":
             e.parts[Evolution(1.0, 2.0, 4)] = Operator(a)
         elif name == "parts_matching_set":
@@ -121,6 +140,9 @@ def evaluate(case):
         elif init == "closed_after_rw":
             e = EKO.edit(path)
             tmpdirs.append(e.metadata.path)
+            _apply(e, "read_recipes")
+            _apply(e, "read_part")
+            _apply(e, "get")
             e.close()
         else:
             e = EKO.read(path)
@@ -153,6 +175,9 @@ def evaluate(case):
         md = e.metadata._path
         d = sorted(os.listdir(md)) if md is not None and os.path.isdir(md) else "gone"
         cache = sorted((str(t), v is not None) for t, v in e.operators.cache.items())
+        cache += sorted(("r" + str(t), v is not None) for t, v in e.recipes.cache.items())
+        cache += sorted(("rm" + str(t), v is not None) for t, v in e.recipes_matching.cache.items())
+        cache += sorted(("p" + str(t), v is not None) for t, v in e.parts.cache.items())
         res.info = {"state": repr((init, e.access.open, e.access.readonly, d if d == "gone" else len(d), cache, str(e.metadata.xgrid.raw.tolist())))}
         res.outcome = f"{op}:{got[0]}:{'open' if was_open else 'closed'}"
         res.nontrivial = op in MUTATING or op in ("close", "dump", "exit")
@@ -171,7 +196,7 @@ def run(ctx):
     for init in INITS:
         hist.bfs(ctx, OPS, evaluate, depth, init_key=f"<{init}>", extra_case={"init": init})
     ctx.rule = (
-        f"BFS over histories of length <= {depth} of {len(OPS)} operations (9 write attempts on operators, "
+        f"BFS over histories of length <= {depth} of {len(OPS)} operations (12 write attempts on operators, "
         "metadata, recipes and parts; reads, unload, dump, close, context exit) from 3 initial states "
         "(read-only open, closed after edit, closed after read-only); non-trivial = last op is a write attempt, dump, close or exit"
     )
